@@ -16,6 +16,7 @@ type PProg struct {
 	Chunk string `json:"chunk"`
 	Reads []ROp  `json:"reads"`
 	Seed  uint64 `json:"seed"`
+	Limit bool   `json:"limit"` // the reader sets a read limit equal to the largest message on the wire: every message is within it
 }
 
 func init() {
@@ -90,6 +91,23 @@ func RunPair(p *PProg) []Ev {
 			}
 		}
 		r.cf = append(r.cf, cf)
+	}
+	if p.Limit {
+		// largest data message on the wire (sum of the payload lengths of its frames)
+		max, cur := 1, 0
+		for _, f := range frames {
+			if f.Op == 1 || f.Op == 2 {
+				cur = len(f.Payload)
+			} else if f.Op == 0 {
+				cur += len(f.Payload)
+			} else {
+				continue
+			}
+			if cur > max {
+				max = cur
+			}
+		}
+		rp.Limit = max
 	}
 	if dec.Pending() > 0 {
 		// a trailing partial frame cannot occur without faults; report it
